@@ -346,7 +346,13 @@ func C01(c *Ctx) {
 			if !isMap || !types.IsInterface(mtp.Key()) {
 				return
 			}
-			if _, isMake := lk.X.(*ssa.MakeMap); !isMake {
+			isSet := true
+			for _, d := range deepDefs(lk.X, m.fns) {
+				if _, isMake := d.(*ssa.MakeMap); !isMake {
+					isSet = false
+				}
+			}
+			if !isSet {
 				return
 			}
 			n5++
@@ -431,18 +437,6 @@ func c01Inequal(c *Ctx, m *matchModel) {
 	if f == nil {
 		return
 	}
-	var factP *ssa.Parameter
-	for _, p := range f.Params {
-		if m.has(p, "F") && !isBindingsT(p.Type()) {
-			factP = p
-		}
-	}
-	if factP == nil {
-		c.R.Break("C01-R4: inequal has no message-side parameter")
-		return
-	}
-	// operator dispatch
-	ops := map[string]bool{}
 	isRel := func(v ssa.Value) (*ssa.BinOp, bool) {
 		bo, ok := v.(*ssa.BinOp)
 		if !ok {
@@ -456,52 +450,113 @@ func c01Inequal(c *Ctx, m *matchModel) {
 		}
 		return nil, false
 	}
-	relHeld := map[*ssa.BasicBlock]bool{} // blocks entered only when a relation test succeeded
-	ssau.Instrs(f, func(in ssa.Instruction) {
-		bo, ok := in.(*ssa.BinOp)
-		if !ok || bo.Op != token.EQL {
-			return
-		}
-		s, isS := ssau.ConstString(bo.Y)
-		if !isS || relTok(s) == token.ILLEGAL {
-			return
-		}
-		ops[s] = true
-		okCase := false
-		why := "no comparison under this case"
-		for _, r := range ssau.Referrers(bo) {
-			iff, isIf := r.(*ssa.If)
-			if !isIf {
-				continue
+	// operator dispatch, wherever in the matcher it lives
+	ops := map[string]bool{}
+	relHeld := map[*ssa.BasicBlock]bool{}
+	for _, g := range m.fns {
+		ssau.Instrs(g, func(in ssa.Instruction) {
+			bo, ok := in.(*ssa.BinOp)
+			if !ok || bo.Op != token.EQL {
+				return
 			}
-			body := iff.Block().Succs[0]
-			if bi, isIf2 := body.Instrs[len(body.Instrs)-1].(*ssa.If); isIf2 {
-				if rel, isR := isRel(bi.Cond); isR {
-					xs, ys := map[string]bool{}, map[string]bool{}
-					paramSources(rel.X, map[ssa.Value]bool{}, xs)
-					paramSources(rel.Y, map[ssa.Value]bool{}, ys)
-					leftFact := xs[factP.Name()] && len(xs) == 1
-					rightBound := !ys[factP.Name()]
-					for k := range ys {
-						if strings.HasPrefix(k, "<lookup") {
-							rightBound = rightBound && true
-						}
+			s, isS := ssau.ConstString(bo.Y)
+			if !isS || relTok(s) == token.ILLEGAL {
+				return
+			}
+			okCase := false
+			why := "no comparison under this case"
+			for _, r := range ssau.Referrers(bo) {
+				iff, isIf := r.(*ssa.If)
+				if !isIf {
+					continue
+				}
+				body := iff.Block().Succs[0]
+				for _, in2 := range body.Instrs {
+					rel, isR := isRel(valueOf(in2))
+					if !isR {
+						continue
 					}
-					if rel.Op == relTok(s) && leftFact && rightBound {
+					leftMsg := m.has(rel.X, "F") && !m.has(rel.X, "B") && !m.has(rel.X, "P")
+					rightBound := m.has(rel.Y, "B") && !m.has(rel.Y, "F")
+					if rel.Op == relTok(s) && leftMsg && rightBound {
 						okCase = true
-						relHeld[body.Succs[0]] = true
+						if bi, isIf2 := body.Instrs[len(body.Instrs)-1].(*ssa.If); isIf2 && bi.Cond == ssa.Value(rel) {
+							relHeld[body.Succs[0]] = true
+						}
 					} else {
-						why = fmt.Sprintf("case %q executes '%s' with left operand from {%s} and right operand from {%s}", s, rel.Op, keysOf(xs), keysOf(ys))
+						why = fmt.Sprintf("case %q executes '%s' with left operand of role {%s} and right operand of role {%s}", s, rel.Op, keysOf(m.roles[rel.X]), keysOf(m.roles[rel.Y]))
 					}
 				}
 			}
-		}
-		c.R.Check(okCase, "C01-R4", fmt.Sprintf("inequal: operator %q", s), c.pos(in), "message value "+s+" bound", why)
-	})
+			if okCase || !ops[s] {
+				ops[s] = okCase
+			}
+			c.R.Check(okCase, "C01-R4", fmt.Sprintf("inequality operator %q", s), c.pos(in), "message value "+s+" bound", why)
+		})
+	}
 	for _, s := range []string{"<", "<=", ">", ">=", "!="} {
-		if !ops[s] {
-			c.R.Violate("C01-R4", fmt.Sprintf("inequal: operator %q", s), c.P.Pos(f.Pos()), "operator is not dispatched")
+		if _, seen := ops[s]; !seen {
+			c.R.Violate("C01-R4", fmt.Sprintf("inequality operator %q", s), c.P.Pos(f.Pos()), "operator is not dispatched")
 		}
+	}
+	// relationValue: v is true only if a relation test succeeded
+	var relationValue func(v ssa.Value, at *ssa.BasicBlock, depth int) bool
+	relationValue = func(v ssa.Value, at *ssa.BasicBlock, depth int) bool {
+		if depth > 8 {
+			return false
+		}
+		if _, isR := isRel(v); isR {
+			return true
+		}
+		if cst, isC := v.(*ssa.Const); isC && cst.Value != nil {
+			if cst.Value.String() == "false" {
+				return true
+			}
+			// constant true: only where a relation is known to hold
+			if relHeld[at] {
+				return true
+			}
+			for _, f2 := range flow.FactsAt(at) {
+				if _, isR := isRel(f2.Cond); isR && f2.True {
+					return true
+				}
+			}
+			return false
+		}
+		if phi, isPhi := v.(*ssa.Phi); isPhi {
+			for i, e := range phi.Edges {
+				pred := phi.Block().Preds[i]
+				ok := relationValue(e, pred, depth+1)
+				if !ok {
+					if cst, isC := e.(*ssa.Const); isC && cst.Value != nil && cst.Value.String() == "true" {
+						for _, f2 := range flow.EdgeFacts(pred, phi.Block()) {
+							if _, isR := isRel(f2.Cond); isR && f2.True {
+								ok = true
+							}
+						}
+					}
+				}
+				if !ok {
+					return false
+				}
+			}
+			return len(phi.Edges) > 0
+		}
+		if cl, isC := v.(*ssa.Call); isC {
+			if sc := cl.Common().StaticCallee(); sc != nil && m.inSet[sc] && sc.Signature.Results().Len() == 1 {
+				n := 0
+				for _, b := range sc.Blocks {
+					if ret, ok := b.Instrs[len(b.Instrs)-1].(*ssa.Return); ok {
+						n++
+						if !relationValue(ret.Results[0], b, depth+1) {
+							return false
+						}
+					}
+				}
+				return n > 0
+			}
+		}
+		return false
 	}
 	// a binding set is returned with using=true only when the relation held
 	nret := 0
@@ -513,34 +568,8 @@ func c01Inequal(c *Ctx, m *matchModel) {
 		nret++
 		held := false
 		for _, fa := range flow.FactsAt(b) {
-			if !fa.True {
-				continue
-			}
-			if _, isR := isRel(fa.Cond); isR {
-				held = true
-			}
-			if phi, isPhi := fa.Cond.(*ssa.Phi); isPhi {
-				all := len(phi.Edges) > 0
-				for i, e := range phi.Edges {
-					cst, isC := e.(*ssa.Const)
-					if !isC || cst.Value == nil {
-						all = false
-						continue
-					}
-					if cst.Value.String() == "true" {
-						pred := phi.Block().Preds[i]
-						okEdge := relHeld[pred]
-						for _, f2 := range flow.EdgeFacts(pred, phi.Block()) {
-							if _, isR := isRel(f2.Cond); isR && f2.True {
-								okEdge = true
-							}
-						}
-						if !okEdge {
-							all = false
-						}
-					}
-				}
-				if all {
+			if fa.True && relationValue(fa.Cond, fa.If.Block(), 0) {
+				if cst, isC := fa.Cond.(*ssa.Const); !isC || cst == nil {
 					held = true
 				}
 			}
@@ -552,29 +581,37 @@ func c01Inequal(c *Ctx, m *matchModel) {
 	}
 	// prefix list order
 	var list []string
-	ssau.Instrs(f, func(in ssa.Instruction) {
-		if al, ok := in.(*ssa.Alloc); ok {
-			if arr, isArr := al.Type().Underlying().(*types.Pointer).Elem().Underlying().(*types.Array); isArr {
-				if b, isB := arr.Elem().Underlying().(*types.Basic); isB && b.Kind() == types.String {
-					items := make([]string, arr.Len())
-					for _, r := range ssau.Referrers(al) {
-						if ia, ok := r.(*ssa.IndexAddr); ok {
-							if idx, isC := ssau.ConstInt(ia.Index); isC {
-								for _, r2 := range ssau.Referrers(ia) {
-									if st, ok := r2.(*ssa.Store); ok {
-										if s, isS := ssau.ConstString(st.Val); isS {
-											items[idx] = s
+	for _, g := range m.fns {
+		ssau.Instrs(g, func(in ssa.Instruction) {
+			if al, ok := in.(*ssa.Alloc); ok {
+				if arr, isArr := al.Type().Underlying().(*types.Pointer).Elem().Underlying().(*types.Array); isArr {
+					if b, isB := arr.Elem().Underlying().(*types.Basic); isB && b.Kind() == types.String {
+						items := make([]string, arr.Len())
+						isOps := false
+						for _, r := range ssau.Referrers(al) {
+							if ia, ok := r.(*ssa.IndexAddr); ok {
+								if idx, isC := ssau.ConstInt(ia.Index); isC {
+									for _, r2 := range ssau.Referrers(ia) {
+										if st, ok := r2.(*ssa.Store); ok {
+											if s, isS := ssau.ConstString(st.Val); isS {
+												items[idx] = s
+												if relTok(s) != token.ILLEGAL {
+													isOps = true
+												}
+											}
 										}
 									}
 								}
 							}
 						}
+						if isOps {
+							list = items
+						}
 					}
-					list = items
 				}
 			}
-		}
-	})
+		})
+	}
 	okList := len(list) > 0
 	for i := range list {
 		for j := i + 1; j < len(list); j++ {
@@ -583,7 +620,13 @@ func c01Inequal(c *Ctx, m *matchModel) {
 			}
 		}
 	}
-	c.R.Check(okList, "C01-R4", "inequal: operator prefixes are tried longest first", c.P.Pos(f.Pos()), "list: "+strings.Join(list, " "), "an operator is listed before a longer operator it is a prefix of: "+strings.Join(list, " "))
+	c.R.Check(okList, "C01-R4", "inequality operator prefixes are tried longest first", c.P.Pos(f.Pos()), "list: "+strings.Join(list, " "), "an operator is listed before a longer operator it is a prefix of: "+strings.Join(list, " "))
+}
+
+// valueOf returns the instruction as a value, or nil.
+func valueOf(in ssa.Instruction) ssa.Value {
+	v, _ := in.(ssa.Value)
+	return v
 }
 
 func C02(c *Ctx) {
